@@ -152,10 +152,10 @@ class Problem:
         return [dict.__getitem__(self.knobs, self.kn[i]) for i in range(self.nk)]
 
     def vary_flags(self):
-        return [bool(v.active) for v in self.opt._err.vary]
+        return [bool(v.active) for v in self.opt.vary]          # public container of Vary objects
 
     def target_flags(self):
-        return [bool(t.active) for t in self.opt._err.targets]
+        return [bool(t.active) for t in self.opt.targets]
 
     def within_tol(self, k, tflags=None):
         """independent evaluation: every active target within its tolerance"""
@@ -168,8 +168,18 @@ class Problem:
         return math.sqrt(sum(((v - t) * w) ** 2 for v, t, w, a in zip(vals, self.tvals, self.tw, tflags) if a))
 
     def log_rows(self):
-        """the optimizer's log as plain rows (read from the private lists and cross-checked with log())"""
-        lg = self.opt._log
+        """the optimizer's log as plain rows, read through the public log() Table"""
+        rows = self.log_table_rows()
+        for r in rows:
+            r.setdefault("tol_met", None)
+            r.setdefault("hit_limits", None)
+        return rows
+
+    def raw_log_rows(self):
+        """the same read from the private lists (only used for a cross-check; None when the private layout is different)"""
+        lg = getattr(self.opt, "_log", None)
+        if not isinstance(lg, dict) or "penalty" not in lg:
+            return None
         n = len(lg["penalty"])
         rows = []
         for i in range(n):
@@ -186,7 +196,7 @@ class Problem:
         n = len(t)
         out = []
         for i in range(n):
-            out.append({"penalty": float(t["penalty"][i]), "alpha": int(t["alpha"][i]), "tag": str(t["tag"][i]),
+            out.append({"penalty": float(t["penalty"][i]), "alpha": None if t["alpha"][i] is None else int(t["alpha"][i]), "tag": str(t["tag"][i]),
                         "knobs": [float(t[f"vary_{j}"][i]) for j in range(self.nk)],
                         "targets": [float(t[f"target_{j}"][i]) for j in range(self.nt)],
                         "vary_active": [c == "y" for c in str(t["vary_active"][i])],
